@@ -50,6 +50,11 @@ var hostile = [][]byte{
 	[]byte("\x81\\"), []byte("\x81."), []byte("\x8f."), []byte("\xa1."), []byte("\xa1\\"), []byte("\x81/"), []byte("\xe5\\"),
 	[]byte(".\x1b(B."), []byte(".\x1b(J."), []byte(".\x0f."), []byte(".~}."), []byte(".\x1b(B./"), []byte("\x1b$B..\x1b(B"),
 	[]byte("...zip"), []byte("..zip"), []byte(".zip"), []byte("x.zip"), []byte("..7z"), []byte("...gz"), []byte("...jar"),
+	// siblings of the destination whose names begin with the destination's name (a containment test by plain string
+	// prefix accepts them): the sandbox has <parent>/dest-sibling/, and the archive may create dest2, destx ...
+	[]byte("../dest-sibling/"), []byte("../dest2"), []byte("../destx/"), []byte("dest-sibling"), []byte("dest2"),
+	[]byte(".\x1b(B./dest-sibling/"), []byte(".\x1b(B./dest2"), []byte(".\x1b(J./destx/"), []byte(".\x0f./dest-sibling/"),
+	[]byte("../d\xc3\xa9 st \xe6\x97\xa5\xe6\x9c\xac-sibling/"), []byte(".\x1b(B./d\xc3\xa9 st \xe6\x97\xa5\xe6\x9c\xac-sibling/"),
 }
 
 func genName(t *rapid.T, label string) ([]byte, bool) {
